@@ -21,6 +21,7 @@ pub const SHADER_MULTI: &str = "struct VA { @location(0) p: vec4<f32>, @location
 const SHADER_PARSE_ERROR: &str = "struct Data { a: vec4<f32> \n@compute fn main( {}\n";
 const SHADER_NONCONSECUTIVE: &str = "@group(0) @binding(0) var<uniform> data: vec4<f32>;\n@group(2) @binding(0) var<uniform> extra: vec4<f32>;\n@compute @workgroup_size(1) fn main() { let x = data.x + extra.x; }\n";
 const SHADER_PC: &str = "struct Pc { tint: vec4<f32>, k: f32 };\nvar<push_constant> pc: Pc;\n@group(0) @binding(0) var<uniform> u: vec4<f32>;\n@vertex fn vs_main() -> @builtin(position) vec4<f32> { return u; }\n@fragment fn fs_main() -> @location(0) vec4<f32> { return pc.tint * pc.k; }\n";
+const SHADER_KEYWORD: &str = "struct Dispatch { static_count: u32, dyn: u32 };\n@group(0) @binding(0) var<uniform> dispatch: Dispatch;\n@compute @workgroup_size(1) fn main() { let x = dispatch.dyn; }\n";
 const SHADER_PANICS: &str = "struct Data { n: u32, items: array<f32> };\n@group(0) @binding(0) var<storage, read> data: Data;\n@compute @workgroup_size(1) fn main() { let x = data.n; }\n";
 
 #[derive(Clone, Debug)]
@@ -58,6 +59,9 @@ pub fn alphabet() -> Vec<Call> {
         Call { name: "PC-validate-empty", src: SHADER_PC, cfg: Config { validate: Validate::Empty, ..Config::default() }, include: None },
         Call { name: "PC-default", src: SHADER_PC, cfg: Config::default(), include: None },
         Call { name: "PC-full-rustfmt", src: SHADER_PC, cfg: Config { rustfmt: true, validate: Validate::All, ..full }, include: None },
+        // identifiers that are Rust keywords (naga accepts them): whatever the call does with them - on this tree it
+        // panics while printing - it must do the same everywhere, and with the formatter off it must not look for one
+        Call { name: "keyword-ident", src: SHADER_KEYWORD, cfg: Config::default(), include: None },
     ]
 }
 
@@ -524,7 +528,7 @@ pub fn run(tier: &str) -> i32 {
             let _ = std::fs::create_dir_all(file_dir.join("shaders"));
             let _ = std::fs::write(file_dir.join(INCLUDE_PATH), SHADER_A);
             let seed_list: Vec<u64> = (0..seeds).collect();
-            let seq = "0,1,6,5,7,7,7,8";
+            let seq = "0,1,6,5,7,7,7,8,13";
             let res = par_map(&seed_list, |s| {
                 let seed = base + s;
                 let clear = s % 2 == 1;
@@ -535,6 +539,10 @@ pub fn run(tier: &str) -> i32 {
                     _ => None,
                 };
                 let mut env = vec![("LD_PRELOAD", lib.display().to_string()), ("VERIF_HASH_SEED", seed.to_string())];
+                if s % 8 == 4 {
+                    // no formatter anywhere on PATH: calls that did not ask for one must not notice
+                    env.push(("PATH", empty_dir.display().to_string()));
+                }
                 if s % 4 == 2 {
                     // noisy environment
                     for (k, v) in [("RUST_LOG", "trace"), ("RUST_BACKTRACE", "full"), ("NO_COLOR", "1"), ("TERM", "dumb"), ("WGPU_BACKEND", "gl"), ("NAGA_DEBUG", "1"), ("RUSTFMT", "/nonexistent"), ("TMPDIR", "/nonexistent"), ("LANG", "tr_TR.UTF-8"), ("LC_ALL", "tr_TR.UTF-8"), ("SOURCE_DATE_EPOCH", "0"), ("CARGO_MANIFEST_DIR", "/nonexistent"), ("OUT_DIR", "/nonexistent")] {
@@ -545,16 +553,19 @@ pub fn run(tier: &str) -> i32 {
             });
             for (s, r) in seed_list.iter().zip(res.iter()) {
                 rep.states += 1;
-                rep.evaluations += 8;
+                rep.evaluations += 9;
                 let v = match r {
                     Ok(v) => v,
                     Err(e) => machinery(&format!("C18 seed child failed: {e}")),
                 };
                 orders.insert(v["set_order"].to_string());
-                for (j, i) in [0usize, 1, 6, 5, 7, 7, 7, 8].iter().enumerate() {
+                for (j, i) in [0usize, 1, 6, 5, 7, 7, 7, 8, 13].iter().enumerate() {
                     let got = v["digests"][j].as_str().unwrap_or("");
+                    if s % 8 == 4 && alpha[*i].cfg.rustfmt {
+                        continue; // the formatter was asked for and is not there: C19's subject
+                    }
                     if got != reference[i] {
-                        rep.violation(format!("process|seed={}|cwd={}|env={}|input={}", base + s, s % 4, if s % 2 == 1 { "cleared" } else if s % 4 == 2 { "noisy" } else { "inherited" }, alpha[*i].name), format!("{} returned {got} in a process with hash seed {}; reference {}", alpha[*i].name, base + s, reference[i]), json!({"wgsl": alpha[*i].src, "config": alpha[*i].cfg.key(), "hash_seed": base + s, "expected": reference[i], "observed": got}));
+                        rep.violation(format!("process|seed={}|cwd={}|env={}|input={}", base + s, s % 4, if s % 8 == 4 { "no-formatter-on-PATH" } else if s % 2 == 1 { "cleared" } else if s % 4 == 2 { "noisy" } else { "inherited" }, alpha[*i].name), format!("{} returned {got} in a process with hash seed {}; reference {}", alpha[*i].name, base + s, reference[i]), json!({"wgsl": alpha[*i].src, "config": alpha[*i].cfg.key(), "hash_seed": base + s, "expected": reference[i], "observed": got}));
                     }
                 }
             }
@@ -618,7 +629,7 @@ pub fn run(tier: &str) -> i32 {
     rep.traces_validated = rep.evaluations;
     rep.sample(json!({"history": ["A", "B", "A-rustfmt"], "inputs": {"A": SHADER_A, "B": SHADER_B}}));
     rep.sample(json!({"schedule_threads": [["A"], ["B"]], "yield_points": ["gen:parsed", "gen:validated", "gen:groups", "gen:stages", "gen:structs", "gen:consts", "gen:bindgroups", "gen:vertex", "gen:compute", "gen:entries", "gen:overrides", "gen:assembled"]}));
-    rep.rule = format!("(1) all call sequences of length <= {depth} over a 6-input alphabet and over one source under 4 option sets (validator accepts / rejects / off / everything on) built to collide (shaders A and B declare the same struct / variable / entry names with different types, stages and groups; a parse error; non-consecutive groups; an input that panics inside generation; A with rustfmt) in one fresh process each, every result compared with the same input alone in a fresh process; (2) real threads running real calls under a controlled scheduler (12 section yield points per call), all schedules within the stated preemption bound per thread program; (3) {seeds} enumerated hash seeds (getrandom interposer) x working directory {{/, empty dir, a dir where the include path exists, inherited}} x environment {{inherited, cleared, noisy}}; (4) strace monitor and source audit. Oracle: byte-identical text / same error variant as the isolated reference.");
+    rep.rule = format!("(1) all call sequences of length <= {depth} over a 6-input alphabet and over one source under 4 option sets (validator accepts / rejects / off / everything on) built to collide (shaders A and B declare the same struct / variable / entry names with different types, stages and groups; a parse error; non-consecutive groups; an input that panics inside generation; A with rustfmt) in one fresh process each, every result compared with the same input alone in a fresh process; (2) real threads running real calls under a controlled scheduler (12 section yield points per call), all schedules within the stated preemption bound per thread program; (3) {seeds} enumerated hash seeds (getrandom interposer) x working directory {{/, empty dir, a dir where the include path exists, inherited}} x environment {{inherited, cleared, noisy, no formatter on PATH}}; (4) strace monitor and source audit. Oracle: byte-identical text / same error variant as the isolated reference.");
     rep.finish()
 }
 
@@ -674,7 +685,7 @@ pub fn trace_child() -> i32 {
     let _ = std::fs::metadata("/VERIF_WARMUP");
     let _ = generate(a[0].src, &a[0].cfg);
     let _ = std::fs::metadata("/VERIF_MARK_BEGIN");
-    for i in [0usize, 1, 6, 2, 3, 8] {
+    for i in [0usize, 1, 6, 2, 3, 8, 4, 13] {
         let _ = a[i].run();
     }
     let _ = std::fs::metadata("/VERIF_MARK_END");
@@ -712,9 +723,9 @@ fn syscall_monitor(rep: &mut Report) -> Value {
         return json!({"ran": false, "reason": "markers not found in the strace log"});
     }
     rep.states += 1;
-    rep.evaluations += 5;
+    rep.evaluations += 8;
     if !calls.is_empty() {
         rep.violation("syscalls|rustfmt=off".to_string(), format!("generation with the formatter off performs file/process/network system calls: {}", calls[0]), json!({"observed": calls.iter().take(10).collect::<Vec<_>>()}));
     }
-    json!({"ran": true, "file_process_network_syscalls_between_markers": calls.len(), "calls_traced": 5})
+    json!({"ran": true, "file_process_network_syscalls_between_markers": calls.len(), "calls_traced": 8})
 }
